@@ -318,7 +318,17 @@ func (i *interpreter) hashHex(s value) value {
 	key := "hashshape:" + h.e
 	if !p.declSet[key] {
 		p.declSet[key] = true
-		p.pc = append(p.pc, "(str.in_re "+h.e+" ((_ re.loop 64 64) (re.union (re.range \"0\" \"9\") (re.range \"a\" \"f\"))))")
+		p.lazy = append(p.lazy, "(str.in_re "+h.e+" ((_ re.loop 64 64) (re.union (re.range \"0\" \"9\") (re.range \"a\" \"f\"))))")
+		p.pc = append(p.pc, "(= (str.len "+h.e+") 64)")
+		h.ln = int64(64)
+		var hexs [256]bool
+		for c := '0'; c <= '9'; c++ {
+			hexs[c] = true
+		}
+		for c := 'a'; c <= 'f'; c++ {
+			hexs[c] = true
+		}
+		p.setAlpha(h.e, &hexs)
 	}
 	return h
 }
